@@ -111,6 +111,41 @@ def run(ctx):
                  "function level: ErrorRanges for all lengths 1..40(64) x 14 rates; pipeline level: random command lines with adapters, --info-file, --times, "
                  "actions, --revcomp; non-trivial = distinct case with at least one applied match / a range list with more than one entry",
                  nontrivial=lambda c, r: (r.get("with_adapters1", 0) + r.get("with_adapters2", 0)) > 0)
+    # statistics of matches found through the adapter index (default mode with several anchored adapters)
+    def extras(rng):
+        e = ["--info-file", "{dir}/info.txt"]
+        if rng.random() < 0.3:
+            e += ["--times", "2"]
+        if rng.random() < 0.3:
+            e += ["--action", rng.choice(["mask", "none", "lowercase"])]
+        return e
+    pipeprop.indexed_sweep(ctx, tally_oracle, 60, 1500, extras)
+    # "the reads of that run": the tally must also hold when the run used several worker processes (statistics of the workers are merged)
+    rng = ctx.rng
+    comp = str.maketrans("ACGT", "TGCA")
+    for _ in range(ctx.scale(6, 60)):
+        ads = [("-a", "a0=AAAGGGCCC"), ("-g", "a1=GATTACAGA"), ("-b", "a2=TTAGGCATC"), ("-a", "a3=CCGGTTAAC;e=0.2")]
+        use = rng.sample(ads, rng.randint(1, 3))
+        argv = ["--no-index"] + [t for fl, sp in use for t in (fl, sp)]
+        if rng.random() < 0.7:
+            argv.append("--revcomp")
+        if rng.random() < 0.5:
+            argv += ["--times", "2"]
+        argv += ["--info-file", "{dir}/info.txt", "-o", "{dir}/o1.fastq"]
+        plain = [sp.split("=")[1].split(";")[0] for fl, sp in use]
+        reads = []
+        for i in range(rng.randint(30, 60)):
+            s_ = pipe.embed(rng, pipe.rs(rng, rng.randint(8, 30)), plain)
+            if rng.random() < 0.3:
+                s_ = pipe.embed(rng, s_, plain)
+            if rng.random() < 0.5:
+                s_ = s_.translate(comp)[::-1]
+            reads.append((f"r{i}", s_, "I" * len(s_)))
+        size = sum(len(n) + 2 * len(s_) + 6 for n, s_, _ in reads)
+        case = dict(argv=argv, paired=False, reads1=reads, reads2=None, with_qual=True, interleaved_in=False,
+                    cores=rng.choice([2, 3]), buffer_size=max(200, size // rng.randint(3, 6)))
+        tally_oracle(ctx, case, None, {})
+        ctx.count("tally-multicore-run")
 
 
 def extended_search(ctx):
